@@ -83,3 +83,79 @@ Proof.
   - apply compose_no_panic. intros s. apply encode_no_panic.
   - apply compose_no_fuel; [apply w_of_pos|apply w_of_le|]. intros s E. apply encode_err in E. discriminate.
 Qed.
+
+(* ---- the two independent dumps of the encoders agree: Gen/Widths.v (wd_<c>: octets of the one-character text, used by the
+        length-only instance compose_len and by the width theorems) and Gen/Charsets.v (enc_runs_<c>: the octets themselves,
+        used by compose_cs and by C17), point by point over every accepted scalar value - proved for the four single-octet
+        charsets (see PARTIAL below for the multi-octet ones; for UCS-2 C17_exact_ucs2 and C07_width_exact say the same). ---- *)
+Open Scope N_scope.
+Definition agree_wd_row (es : runs) (x : wrow) : bool :=
+  let '(lo, hi, n, _) := x in
+  forall_in lo hi (fun r => match lookup r es with Some (n', _) => n' =? n | None => false end).
+Definition agree_enc_run (tbl : list wrow) (q : run) : bool :=
+  let '(lo, hi, n, _) := q in
+  forall_in lo hi (fun r => match wd_find r tbl with Some (n', _) => n' =? n | None => false end).
+Definition tables_agree (tbl : list wrow) (es : runs) : bool :=
+  forallb (agree_wd_row es) tbl && forallb (agree_enc_run tbl) es.
+
+Lemma tables_agree_sound tbl es : tables_agree tbl es = true ->
+  forall r, match wd_find r tbl, enc_rune_t es r with
+            | Some (n, _), Some b => N.of_nat (length b) = n
+            | None, None => True
+            | _, _ => False
+            end.
+Proof.
+  unfold tables_agree. rewrite andb_true_iff. intros [H1 H2] r.
+  rewrite forallb_forall in H1. rewrite forallb_forall in H2.
+  destruct (wd_find r tbl) as [[n wd]|] eqn:F.
+  - destruct (wd_find_in _ _ _ _ F) as (lo & hi & I & B). specialize (H1 _ I). unfold agree_wd_row in H1.
+    pose proof (forall_in_sound _ _ _ H1 r B) as H. cbv beta in H. unfold enc_rune_t.
+    destruct (lookup r es) as [[n' x]|]; [|discriminate]. apply N.eqb_eq in H. subst n'.
+    rewrite be_bytes_length. lia.
+  - unfold enc_rune_t. destruct (lookup r es) as [[n x]|] eqn:L; [|exact I].
+    destruct (lookup_Some_in _ _ _ _ L) as (lo & hi & v & Hin & B & _). specialize (H2 _ Hin). unfold agree_enc_run in H2.
+    pose proof (forall_in_sound _ _ _ H2 r B) as H. cbv beta in H. rewrite F in H. discriminate.
+Qed.
+
+Lemma agree_ascii : tables_agree wd_ascii enc_runs_ascii = true. Proof. vm_compute. reflexivity. Qed.
+Lemma agree_latin1 : tables_agree wd_latin1 enc_runs_latin1 = true. Proof. vm_compute. reflexivity. Qed.
+Lemma agree_cyrillic : tables_agree wd_cyrillic enc_runs_cyrillic = true. Proof. vm_compute. reflexivity. Qed.
+Lemma agree_hebrew : tables_agree wd_hebrew enc_runs_hebrew = true. Proof. vm_compute. reflexivity. Qed.
+(* PARTIAL: the same check holds for Shift-JIS, EUC-JP and EUC-KR (tables_agree wd_shiftjis enc_runs_sjis = true etc.,
+   evaluated once during development: 5 min 46 s of kernel time for the three, point-by-point with linear look-ups) but
+   is not part of the build - every change of the encoders would pay it again in the quick tier.  A linear merge over
+   the two sorted tables would make it affordable; not done.  For these three the tie between compose_len and
+   compose_cs is the generated cases (both are evaluated on the same inputs). *)
+
+Definition single_octet (c : coding) : Prop := c = CAscii \/ c = CLatin1 \/ c = CCyrillic \/ c = CHebrew.
+
+Theorem tables_agree_all c : single_octet c ->
+  forall r, match wd_find r (wd_of c), enc_rune_t (enc_runs c) r with
+            | Some (n, _), Some b => N.of_nat (length b) = n
+            | None, None => True
+            | _, _ => False
+            end.
+Proof.
+  intros [->|[->|[->| ->]]]; cbn [wd_of enc_runs]; apply tables_agree_sound.
+  - exact agree_ascii.
+  - exact agree_latin1.
+  - exact agree_cyrillic.
+  - exact agree_hebrew.
+Qed.
+
+(* hence the length-only encoder of compose_len is the length of the octets compose_cs encodes, for every text *)
+Theorem enc_len_is_length c : single_octet c -> forall t,
+  match enc_len_stateless (wd_of c) t, encode c t with
+  | Ok n, Ok bs => n = length bs
+  | Err _, Err _ => True
+  | _, _ => False
+  end.
+Proof.
+  intros Hc. assert (E : encode c = encode_t (enc_runs c)) by (destruct Hc as [->|[->|[->| ->]]]; reflexivity).
+  rewrite E. induction t as [|r t IH]; cbn [enc_len_stateless encode_t]; [reflexivity|].
+  pose proof (tables_agree_all c Hc r) as A.
+  destruct (wd_find r (wd_of c)) as [[n wd]|]; destruct (enc_rune_t (enc_runs c) r) as [b|]; try contradiction; [|exact I].
+  destruct (enc_len_stateless (wd_of c) t) as [l|e|]; destruct (encode_t (enc_runs c) t) as [bs|e'|]; try contradiction; cbn [obind].
+  - rewrite app_length. lia.
+  - exact I.
+Qed.
